@@ -344,16 +344,26 @@ func cutsFor(it item, tier string, rng *rand.Rand) []int {
 }
 
 // iccOutcome runs the ICC profile reader behind an arbitrary buffered reader.
+// bufSize > 0: bufio of that size; 0: default bufio; -1: the instrumented source itself in its
+// rich presentation (Seek, ReadAt, WriteTo, ... like *os.File); -2: a *bytes.Reader (what
+// meta.Data.ICCProfile uses); -3: a *bytes.Buffer.
 func iccOutcome(data []byte, s obs.Sched, bufSize int) string {
 	src := obs.NewSource(data, -1, nil, s)
 	var r interface {
 		io.Reader
 		io.ByteReader
 	}
-	if bufSize > 0 {
+	switch {
+	case bufSize > 0:
 		r = bufio.NewReaderSize(src, bufSize)
-	} else {
+	case bufSize == 0:
 		r = bufio.NewReader(src)
+	case bufSize == -1:
+		r = src.WithShape("rich0").Reader().(obs.RichSource)
+	case bufSize == -2:
+		r = bytes.NewReader(data)
+	default:
+		r = bytes.NewBuffer(append([]byte{}, data...))
 	}
 	p, err := icc.NewProfileReader(r).ReadProfile()
 	if err != nil {
@@ -405,8 +415,12 @@ func loadsCmd(args []string) error {
 			fault  string
 			s      obs.Sched
 			loader string
+			shape  string
 		}
 		var jobs []job
+		// how the source presents itself: a bare io.Reader, or the way *bytes.Reader / *os.File
+		// do (Seek, ReadAt, WriteTo, ...), at offset 0 or embedded after foreign bytes
+		shapes := []string{"plain", "rich0", "rich5"}
 		scheds := []obs.Sched{obs.Full, {Name: "fixed1", Sizes: []int{1}, Cyclic: true}, {Name: "fixed7", Sizes: []int{7}, Cyclic: true},
 			{Name: "full+err", WithErr: true}, {Name: "fixed4097", Sizes: []int{4097}, Cyclic: true}}
 		for _, it := range items {
@@ -423,7 +437,7 @@ func loadsCmd(args []string) error {
 					for li, loader := range loaders {
 						s := scheds[(ci+fi+li)%len(scheds)]
 						if *tier == "thorough" || cut <= 48 || (ci+li)%2 == 0 {
-							jobs = append(jobs, job{it, cut, fault, s, loader})
+							jobs = append(jobs, job{it, cut, fault, s, loader, shapes[(ci/len(scheds)+fi+2*li)%len(shapes)]})
 						}
 					}
 				}
@@ -431,11 +445,11 @@ func loadsCmd(args []string) error {
 		}
 		parallel(len(jobs), func(i int) {
 			j := jobs[i]
-			src := obs.NewSource(j.it.Data, j.cut, failOf(j.fault), j.s)
+			src := obs.NewSource(j.it.Data, j.cut, failOf(j.fault), j.s).WithShape(j.shape)
 			o := obs.Run(j.loader, src, true, false)
 			sink.put(map[string]interface{}{
 				"item": j.it.Name, "loader": j.loader, "n": len(j.it.Data), "cut": j.cut, "fault": j.fault,
-				"sched": j.s.Name, "ok": o.OK, "panic": o.Panic != "", "stream_nil": o.StreamNil,
+				"sched": j.s.Name, "shape": j.shape, "ok": o.OK, "panic": o.Panic != "", "stream_nil": o.StreamNil,
 				"pulled": o.Pulled, "replay_len": o.ReplayLen, "prefix": o.Prefix, "final": o.FinalErr,
 			})
 		})
@@ -512,12 +526,36 @@ func loadsCmd(args []string) error {
 			profiles = append(profiles, gen.SimpleProfile(sz, "desc "+fmt.Sprint(sz), sz%2 == 0, uint32(sz)))
 		}
 		profiles = append(profiles, profiles[1][:300], profiles[1][:100], []byte{}) // truncated ones fail alike
+		// malformed ones fail alike too: tags pointing into the header / the tag table / past the
+		// end, overlapping and out-of-order tags (legal)
+		{
+			tags := []gen.ICCTag{{Sig: "desc", Block: 0}, {Sig: "cprt", Block: 1}, {Sig: "wtpt", Block: 1}}
+			blocks := []gen.ICCBlock{{Data: gen.TextDesc("malformed")}, {Data: gen.Payload(40, 3, false)}}
+			for _, ov := range []gen.ICCOverride{
+				{TagCount: -1, ProfSize: -1, TagOffset: map[int]int64{1: 0}},
+				{TagCount: -1, ProfSize: -1, TagOffset: map[int]int64{1: 100}},
+				{TagCount: -1, ProfSize: -1, TagOffset: map[int]int64{0: 132}},
+				{TagCount: -1, ProfSize: -1, TagOffset: map[int]int64{2: 140}, TagSize: map[int]int64{2: 12}},
+				{TagCount: -1, ProfSize: -1, TagOffset: map[int]int64{1: 1 << 20}},
+				{TagCount: -1, ProfSize: -1, TagSize: map[int]int64{1: 1 << 20}},
+				{TagCount: -1, ProfSize: -1, TagSize: map[int]int64{0: 13}},
+				{TagCount: 2, ProfSize: -1},
+				{TagCount: 4, ProfSize: -1},
+			} {
+				ov := ov
+				profiles = append(profiles, gen.BuildICC(nil, tags, blocks, nil, &ov))
+			}
+			profiles = append(profiles, gen.BuildICC(nil, tags, blocks, []int{1, 0}, nil))
+		}
 		parallel(len(profiles), func(i int) {
 			lr := rand.New(rand.NewSource(*seed*31 + int64(i)))
 			var outs [][2]string
 			for _, s := range schedules(lr, len(profiles[i]), *tier) {
-				for _, bs := range []int{0, 16, 17, 64, 128, 1000, 4096} {
+				for _, bs := range []int{0, 16, 17, 64, 128, 1000, 4096, -1} {
 					outs = append(outs, [2]string{fmt.Sprintf("%s/buf%d", s.Name, bs), iccOutcome(profiles[i], s, bs)})
+				}
+				if s.Name == "full" {
+					outs = append(outs, [2]string{"bytes.Reader", iccOutcome(profiles[i], s, -2)}, [2]string{"bytes.Buffer", iccOutcome(profiles[i], s, -3)})
 				}
 			}
 			sink.put(map[string]interface{}{"item": fmt.Sprintf("profile%d", i), "kind": "icc", "loader": "icc", "n": len(profiles[i]), "outs": outs})
